@@ -185,12 +185,25 @@ MEMORY ram LOCATION=0x20000000 SIZE=0x100000 {
 """
 
 
+LAYOUT_CODE_ONLY = """
+MEMORY code LOCATION=0x4000 SIZE=0x100000 {
+  SECTION(code)
+}
+"""
+
+
 def layout_text(op):
     """The layout is part of the options of a subject (same subject, same
     layout); some layouts name an entry symbol."""
     if op.get("layout") == 1 and op.get("entry"):
         return LAYOUT_ENTRY % op["entry"]
+    if op.get("layout") == 2:
+        return LAYOUT_CODE_ONLY  # data / rodata stay outside every memory
     return LAYOUT
+
+
+def job_scratch():
+    return os.environ.get("VERIF_C30_SCRATCH", "/var/tmp/ppci-verif-c30-files")
 
 
 def sha(b):
@@ -217,7 +230,26 @@ def run_op(api, layout_mod, write_elf, op):
                 repf = io.StringIO()
                 rep = TextReportGenerator(repf)
                 rep.header()
-            if kind == "c":
+            if kind == "c" and op.get("files"):
+                # the translation unit and its headers live in real files, in
+                # a directory whose name depends only on the contents (the
+                # path is part of the input: __FILE__, debug info)
+                import hashlib as _h
+                key = _h.sha256(repr(sorted(op["files"].items()))
+                                .encode()).hexdigest()[:16]
+                root = os.path.join(job_scratch(), key)
+                os.makedirs(root, exist_ok=True)
+                for name, text in op["files"].items():
+                    path = os.path.join(root, name)
+                    if not os.path.exists(path):
+                        tmp = path + f".{os.getpid()}.tmp"
+                        with open(tmp, "w") as fh:
+                            fh.write(text)
+                        os.replace(tmp, path)
+                with open(os.path.join(root, op["main"])) as fh:
+                    obj = api.cc(fh, op["march"], opt_level=op["opt"],
+                                 debug=op.get("debug", False), reporter=rep)
+            elif kind == "c":
                 obj = api.cc(io.StringIO(op["src"]), op["march"],
                              opt_level=op["opt"], debug=op.get("debug", False),
                              reporter=rep)
@@ -263,6 +295,15 @@ def run_op(api, layout_mod, write_elf, op):
     if op.get("report"):
         import re
         out["report"] = re.sub(r"0x[0-9a-f]{8,}", "0xADDR", repf.getvalue())
+    link_objs = [obj]
+    if op.get("extra_asm"):
+        try:
+            with contextlib.redirect_stdout(sink), \
+                    contextlib.redirect_stderr(sink):
+                link_objs.append(api.asm(io.StringIO(op["extra_asm"]),
+                                         op["march"]))
+        except Exception:
+            pass
     for kind in op.get("outputs", ["obj"]):
         try:
             with contextlib.redirect_stdout(sink), \
@@ -279,7 +320,7 @@ def run_op(api, layout_mod, write_elf, op):
                     data = f.getvalue()
                 elif kind == "img":
                     lay = layout_mod.Layout.load(io.StringIO(layout_text(op)))
-                    linked = api.link([obj], lay, partial_link=False)
+                    linked = api.link(link_objs, lay, partial_link=False)
                     f = io.StringIO()
                     linked.save(f)
                     data = f.getvalue() + "".join(
@@ -312,7 +353,7 @@ def run_op(api, layout_mod, write_elf, op):
                     data = f.getvalue()
                 elif kind == "exe":
                     lay = layout_mod.Layout.load(io.StringIO(layout_text(op)))
-                    linked = api.link([obj], lay, partial_link=False)
+                    linked = api.link(link_objs, lay, partial_link=False)
                     f = io.BytesIO()
                     write_elf(linked, f, type="executable")
                     data = f.getvalue()
